@@ -22,6 +22,7 @@ def tasks(tier):
             ts.append(Task('verifHarness_C10_reader', [keyed, chunk]))
     ts += [Task('verifHarness_C14_read_failure', [busy]) for busy in (0, 1, 2, 3)]
     ts.append(Task('verifHarness_C10_write_failure_order', []))
+    ts.append(Task('verifHarness_C10_many_errors', []))
     for keyed in (0, 1):
         for chunk in ((0, 5) if tier == 'quick' else (0, 1, 5, 13, 30, 40)):
             ts.append(Task('verifHarness_C10_consumer', [keyed, chunk]))
@@ -30,11 +31,12 @@ def tasks(tier):
 
 
 def required_reach(tier):
-    return ['C10/R', 'C14/L2', 'C10/C', 'C10/W']
+    return ['C10/R', 'C14/L2', 'C10/C', 'C10/W', 'C10/E']
 
 
 def bounds(tier):
-    return {'stream': 'junk byte (not a marker), valid frame, complete frame with a wrong checksum (keyed link: wrong signature, then an '
+    return {'long_error_run': '130 junk bytes and a frame with a wrong checksum, then a valid frame: 131 parse errors, the frame, no close',
+            'stream': 'junk byte (not a marker), valid frame, complete frame with a wrong checksum (keyed link: wrong signature, then an '
                       'unsigned frame), valid frame; all header/payload bytes symbolic (valid frames kept canonical: last payload byte non-zero)',
             'segmentation': 'first transport read of size 0(all),1,7 (quick) / ten sizes (thorough)',
             'write_failure_order_one_schedule': 'three frames received in one piece, a slow application, then a failing write: the close event comes after every received frame and nothing follows it',
